@@ -49,6 +49,9 @@ type run struct {
 	cellLog     map[string][]cellWrite
 	wholeLog    map[string]bool
 	wholeBefore bool
+	dryAllocVar *smt.Term // the allocation counter at the head of the loop body in the second dry run
+	axiomFacts  map[*smt.Term][]string // quantified axiom facts -> the spec functions they speak about
+	appMemo     map[*smt.Term][]string
 	depth    int
 	safe     bool
 	autoTransparent map[string]bool
@@ -184,23 +187,101 @@ func (r *run) knownFalse(cond *smt.Term) bool {
 // factsFor returns the facts an obligation may use: all facts so far, except that facts assumed from
 // instance j of a contract family are dropped when the goal belongs to another instance of the same
 // family (dropping assumptions is always sound; it keeps the solver away from 59 irrelevant ISA cases).
-func (r *run) factsFor() []*smt.Term {
+func (r *run) factsFor(goal ...*smt.Term) []*smt.Term {
 	all := r.facts[:len(r.facts):len(r.facts)]
-	if r.goalTag == "" || len(r.factTag) == 0 {
+	if (r.goalTag == "" || len(r.factTag) == 0) && len(r.axiomFacts) == 0 {
 		return all
+	}
+	// an axiom about spec functions none of which occurs in the goal or in any other fact cannot
+	// contribute to the proof; leaving it out keeps quantifier-free obligations quantifier-free
+	// (so that a failure comes back as a model, not as "unknown")
+	var used map[string]bool
+	if len(r.axiomFacts) > 0 {
+		used = map[string]bool{}
+		for _, g := range goal {
+			for _, a := range r.appsOf(g) {
+				used[a] = true
+			}
+		}
+		for _, f := range all {
+			if _, isAx := r.axiomFacts[f]; !isAx {
+				for _, a := range r.appsOf(f) {
+					used[a] = true
+				}
+			}
+		}
+		// functions defined in the SMT prelude mention others in their bodies
+		for changed := true; changed; {
+			changed = false
+			for n := range used {
+				if d := r.C().Prelude[n]; d != nil {
+					for _, dep := range d.Deps {
+						if !used[dep] {
+							used[dep] = true
+							changed = true
+						}
+					}
+				}
+			}
+		}
 	}
 	var out []*smt.Term
 	dropped := false
 	for _, f := range all {
-		if t, ok := r.factTag[f]; ok && t != r.goalTag {
+		if t, ok := r.factTag[f]; ok && r.goalTag != "" && t != r.goalTag {
 			dropped = true
 			continue
+		}
+		if apps, isAx := r.axiomFacts[f]; isAx {
+			rel := len(apps) == 0
+			for _, a := range apps {
+				if used[a] {
+					rel = true
+					break
+				}
+			}
+			if !rel {
+				dropped = true
+				continue
+			}
 		}
 		out = append(out, f)
 	}
 	if !dropped {
 		return all
 	}
+	return out
+}
+
+// appsOf lists the uninterpreted / spec function symbols applied in t (memoised per term).
+func (r *run) appsOf(t *smt.Term) []string {
+	if r.appMemo == nil {
+		r.appMemo = map[*smt.Term][]string{}
+	}
+	if a, ok := r.appMemo[t]; ok {
+		return a
+	}
+	set := map[string]bool{}
+	seen := map[*smt.Term]bool{}
+	var walk func(t *smt.Term)
+	walk = func(t *smt.Term) {
+		if seen[t] {
+			return
+		}
+		seen[t] = true
+		if t.Op == "app" {
+			set[t.Name] = true
+		}
+		for _, a := range t.Args {
+			walk(a)
+		}
+	}
+	walk(t)
+	out := make([]string, 0, len(set))
+	for k := range set {
+		out = append(out, k)
+	}
+	r.appMemo[t] = out
 	return out
 }
 
@@ -224,7 +305,7 @@ func (r *run) oblige(kind, name string, guard, goal *smt.Term, text string) *Obl
 	if n := r.nameCount[full]; n > 1 {
 		full = fmt.Sprintf("%s~%d", full, n)
 	}
-	o := &Obligation{Name: full, Kind: kind, Props: r.props, Facts: r.factsFor(),
+	o := &Obligation{Name: full, Kind: kind, Props: r.props, Facts: r.factsFor(guard, goal),
 		Goal: r.C().Implies(guard, goal), Expect: "unsat", Func: r.name, Text: text, Vars: r.vars}
 	r.obls = append(r.obls, o)
 	return o
@@ -1597,6 +1678,35 @@ func (r *run) makeSlice(cur *node, fr *frame, x *ssa.MakeSlice) Value {
 	base := Loc{Heap: "E$" + typeKey(st.Elem()), Idxs: []*smt.Term{ref}, T: st.Elem()}
 	// zero the backing array
 	at := types.NewArray(st.Elem(), 0)
+	if r.scalarSort(st.Elem()) == nil {
+		if _, isArr := st.Elem().Underlying().(*types.Array); !isArr {
+			// composite elements (structs, pointers, slices, interfaces): every memory cell of every element
+			// is the zero of its sort (0 also encodes nil references and empty slices)
+			var cells []leafCell
+			if !r.leafCells(st.Elem(), "", &cells) {
+				r.unsupported("make of a slice of %s", st.Elem())
+			}
+			for _, lc := range cells {
+				heap := base.Heap + "[]" + lc.suffix
+				hs := r.heapSort(2, lc.sort)
+				var z *smt.Term
+				switch {
+				case lc.sort.Kind == smt.KBool:
+					z = c.False()
+				case lc.sort.Kind == smt.KBV:
+					z = c.BVC(lc.sort.Width, 0)
+				case lc.sort.Kind == smt.KInt:
+					z = c.IntC(0)
+				case lc.sort == StrSort:
+					z = r.E.strConst("")
+				default:
+					z = c.Var("zero$"+lc.sort.String(), lc.sort)
+				}
+				cur.setPV(heap, c.Store(cur.getPV(heap, hs), ref, c.ConstArray(hs.Elem, z)))
+			}
+			return SliceV{Base: base, Off: r.idxConst(0), Len: ln, Cap: cp}
+		}
+	}
 	r.store(cur, Loc{Heap: base.Heap, Idxs: base.Idxs, T: at}, r.zeroArrayValue(at))
 	return SliceV{Base: base, Off: r.idxConst(0), Len: ln, Cap: cp}
 }
